@@ -9,7 +9,16 @@ import hashlib
 
 import numpy as np
 
-REPO_PREFIX = '/repo/vivarium'
+REPO_PREFIX = None   # directory of the vivarium package under test
+
+
+def _repo_prefix():
+    global REPO_PREFIX
+    if REPO_PREFIX is None:
+        import os
+        import vivarium
+        REPO_PREFIX = os.path.dirname(os.path.abspath(vivarium.__file__))
+    return REPO_PREFIX
 
 
 class SimBudgetExceeded(BaseException):
@@ -226,6 +235,7 @@ def install_monitor():
     global _mon_installed
     if _mon_installed:
         return
+    _repo_prefix()
     mon = sys.monitoring
     try:
         mon.use_tool_id(_TOOL, 'verif-dst')
